@@ -155,7 +155,7 @@ PROPS = {
     },
     "C15": {
         "extra_imports": ["Gofasta.Props.Cols", "Gofasta.Props.Cli", "Gofasta.Lemmas.FastaWrite"],
-        "extra_theorems": ["Gofasta.Props.Cols.checkArgs_translated", "Gofasta.Props.Cols.window_filter", "Gofasta.Props.Cli.window_defaults", "Gofasta.Props.Cli.wiring", "Gofasta.Props.Cli.no_option_twice", "Gofasta.Lemmas.FastaWrite.written_reads_back", "Gofasta.Lemmas.FastaWrite.file_bytes"],
+        "extra_theorems": ["Gofasta.Props.Cols.checkArgs_translated", "Gofasta.Props.Cols.window_filter", "Gofasta.Props.Cols.agg_window_filter", "Gofasta.Props.Cli.window_defaults", "Gofasta.Props.Cli.wiring", "Gofasta.Props.Cli.no_option_twice", "Gofasta.Lemmas.FastaWrite.written_reads_back", "Gofasta.Lemmas.FastaWrite.file_bytes"],
         "streams": {"C15v": (300, 5000), "C15toma": (300, 5000), "C15topa": (300, 5000)},
         "thorough_seeds": 3,
         "cli": True,
